@@ -264,6 +264,20 @@ class Ctx:
                 return m, fn
         raise AnalysisError("anchor %s::%s vanished" % (relpath, qualname))
 
+    def module_of(self, fn):
+        """module that contains the function definition node fn"""
+        idx = self._cache.get("module_of")
+        if idx is None:
+            idx = {}
+            for m in self.program.by_relpath.values():
+                for f in m.scopes:
+                    idx[f] = m
+            self._cache["module_of"] = idx
+        m = idx.get(fn)
+        if m is None:
+            raise AnalysisError("function node not found in any module")
+        return m
+
     def functions_named(self, relpath, name):
         m = self.program.module(relpath)
         return [(m, fn) for fn, sc in m.scopes.items() if sc.qualname.split(".")[-1] == name]
@@ -310,11 +324,11 @@ class Ctx:
             for cfg in valuations(space):
                 yield kind, cfg, self.paths(spec, kind, cfg, max_iter)
 
-    def fn_paths(self, module, fn, cfg=None, extra_env=None, max_iter=None, inline=True, roles=None):
-        """Paths of a plain function (no event kind)."""
-        spec = HandlerSpec(module, fn, None, roles=roles)
+    def fn_paths(self, module, fn, cfg=None, extra_env=None, max_iter=None, inline=True, roles=None, ctxb=None):
+        """Paths of a plain function (no event kind); ctxb binds parameters of the enclosing factories."""
+        spec = HandlerSpec(module, fn, None, roles=roles, ctx=ctxb)
         mi = max_iter or self.max_iter
-        key = ("fn", id(fn), tuple(sorted((cfg or {}).items())), mi, tuple(sorted((extra_env or {}).items())), inline)
+        key = ("fn", id(fn), tuple(sorted((cfg or {}).items())), mi, tuple(sorted((extra_env or {}).items())), inline, spec.ctx_key)
         if key not in self._cache:
             ps = self.ex.run(spec, None, cfg or {}, max_iter=mi, extra_env=extra_env, inline=inline)
             self.total_paths += len(ps)
